@@ -48,8 +48,12 @@ structure Applied where
   conditionStored : Bool     -- the condition / capture was even stored (a Contract / Snapshot was built)
 deriving DecidableEq, Repr, Inhabited
 
-def applyDecorator (_k : DecoKind) (enabled : Bool) : Applied :=
-  if enabled then { sameObject := false, attrsAdded := true, conditionStored := true }
+def applyDecorator (k : DecoKind) (enabled : Bool) : Applied :=
+  if enabled then
+    -- `snapshot` returns `func` and `invariant` returns `cls` (mutated in place); `require`/`ensure`
+    -- applied to a bare function return the new checker
+    { sameObject := (match k with | .snapshot | .invariant => true | _ => false),
+      attrsAdded := true, conditionStored := true }
   else { sameObject := true, attrsAdded := false, conditionStored := false }
 
 /-- A library `assert`: under `-O`/`-OO` it is not executed at all. -/
